@@ -27,20 +27,34 @@ def _run(ctx, ncases, nsteps):
   for c in range(ncases):
     sleep = rng.random() < 0.25
     opt = 'timestep="0.004"' + (' cone="elliptic"' if rng.random() < 0.4 else "")
-    wb, sp = models.random_tree(rng, nbody=int(rng.integers(2, 6)), geom_types=["sphere", "capsule", "box"], spread=0.4, sites=False)
+    crossed = c == 0
+    if crossed:
+      # two long thin free boxes: whether they touch depends on the ORIENTATION of the second one only, which differs per world —
+      # the broadphase AABB/OBB filters (closure-built device functions the access table cannot see) must use each world's own pose
+      sleep = False
+      wb = ('<body pos="0 0 0.5"><freejoint/><geom type="box" size=".3 .03 .03"/></body>'
+            '<body pos="0 0.25 0.55"><freejoint/><geom type="box" size=".3 .03 .03"/></body>')
+    else:
+      wb, sp = models.random_tree(rng, nbody=int(rng.integers(2, 6)), geom_types=["sphere", "capsule", "box"], spread=0.4, sites=False)
     xml = models.wrap(wb, option=opt)
     if sleep:
       xml = xml.replace("<option ", '<option><flag sleep="enable"/></option>\n  <option ')
     mjm = mujoco.MjModel.from_xml_string(xml)
     nworld = int(rng.integers(2, 5))
     states = []
-    for w in range(nworld):
+    for w in range(nworld if not crossed else 0):
       md = mujoco.MjData(mjm)
       models.random_state(rng, mjm, md, qpos_scale=0.2, qvel_scale=1.0, unnormalized=False)
       for j in range(mjm.njnt):
         if mjm.jnt_type[j] == 0:
           md.qpos[mjm.jnt_qposadr[j] + 2] = rng.uniform(0.05, 0.6)
       states.append((md.qpos.copy(), md.qvel.copy(), rng.normal(size=mjm.nv) * 0.3))
+    if crossed:
+      for w in range(nworld):
+        md = mujoco.MjData(mjm)
+        ang = 0.0 if w == 0 else float(rng.uniform(1.2, 1.9))     # world 0 parallel (apart), the others crossing (touching)
+        md.qpos[10:14] = [np.cos(ang / 2), 0, 0, np.sin(ang / 2)]
+        states.append((md.qpos.copy(), np.zeros(mjm.nv), np.zeros(mjm.nv)))
     m = mjw.put_model(mjm)
     md0 = mujoco.MjData(mjm)
 
